@@ -5,8 +5,9 @@ import json, os, shutil, subprocess, sys, glob
 pid, k = sys.argv[1], sys.argv[2]
 src = os.environ.get("MUT_ROOT", "/tmp/mut_") + f"{pid}/_mut/{k}"
 patch = sys.argv[3] if len(sys.argv) > 3 else os.path.join(src, "patch.diff")
-WT = "/tmp/confirm_wt"
-ENV = dict(os.environ, CARGO_NET_OFFLINE="true", CARGO_TARGET_DIR="/tmp/confirm_target")
+SLOT = os.environ.get("CONFIRM_SLOT", "")
+WT = "/tmp/confirm_wt" + SLOT
+ENV = dict(os.environ, CARGO_NET_OFFLINE="true", CARGO_TARGET_DIR="/tmp/confirm_target" + SLOT)
 
 def sh(cmd, cwd=None, timeout=3000):
     p = subprocess.run(["bash", "-c", cmd], cwd=cwd, env=ENV, stdout=subprocess.PIPE, stderr=subprocess.STDOUT, text=True, timeout=timeout)
@@ -25,7 +26,7 @@ def run_demo():
         shutil.rmtree(os.path.join(WT, "_mut"), ignore_errors=True)
         shutil.copytree(demo_dir, dst, ignore=shutil.ignore_patterns("target"))
         shutil.copy(os.path.join(WT, "Cargo.lock"), os.path.join(dst, "Cargo.lock"))
-        env_t = "CARGO_TARGET_DIR=/tmp/confirm_target_demo"
+        env_t = "CARGO_TARGET_DIR=/tmp/confirm_target_demo" + SLOT
         if os.path.exists(os.path.join(dst, "run.sh")):
             rc, out = sh(f"{env_t} bash run.sh 2>&1 | tail -15; exit ${{PIPESTATUS[0]}}", cwd=dst)
             return (0 if rc == 0 else 1), out
